@@ -384,11 +384,16 @@ pub fn for_each_program(thorough: bool, family_filter: &(dyn Fn(&str) -> bool + 
     // declaration - so the program means what it meant, and a declaration that stays visible past its block, a branch
     // binding that survives the branch, or a temporary named after the wrong declaration shows as a different trace
     if family_filter("shadowed") {
-        let accs = crate::pool::par_items(&progs, 16, |_| Stats::new(), |acc, i, (fam, p)| {
+        // both tiers take the programs of the quick sequence length as bases (about 13 variants per base)
+        let short: Vec<(String, Program)>;
+        let bases: &Vec<(String, Program)> = if thorough {
+            short = crate::stmtfam::all_programs(false).into_iter().filter(|(f, _)| family_filter(f)).collect();
+            &short
+        } else {
+            &progs
+        };
+        let accs = crate::pool::par_items(bases, 16, |_| Stats::new(), |acc, i, (fam, p)| {
             let head = fam.split(':').next().unwrap_or(fam);
-            if !thorough && !["enums", "closures", "value-blocks", "recursion", "globals", "late-globals"].contains(&head) {
-                return;
-            }
             for (k, mut q) in shadow_variants(p).into_iter().enumerate() {
                 handler(acc, &format!("shadowed:{}", head), &mut q, (i + k) % 7001 == 0);
                 acc.count("family:shadowed", 1);
